@@ -348,7 +348,7 @@ def library_tables(sps):
                 walk(x)
     for sp in sps:
         walk(sp)
-    return ("{| o_asc := true; o_frepr := %s; o_text := %s; o_parse := (@nil (str * json)); o_rel := false |}" % (
+    return ("{| o_asc := true; o_frepr := %s; o_text := %s; o_parse := (@nil (str * json)); o_rel := false; o_origin := (@nil N) |}" % (
         coq_list(["((%d)%%Z, (%d)%%Z, %s)" % (m, e, coq_str(r)) for (m, e), r in sorted(ftab.items())], "(fl * str)"),
         coq_list(["(%s, %s, %s)" % (coq_bool(k), coq_json(v), coq_str(t)) for k, v, t in text], "(bool * json * str)")))
 
